@@ -117,3 +117,47 @@ KERNELS = [
       [(r"mapping\(i, 3\)", "rows"), (r"mapping\(i, 4\)", "cols")], [("rows", "Z"), ("cols", "Z")], G, _P),
     K("src_grad_count", GRC, r"count\s*\+=\s*(.*?);", [], [("channels", "Z")], G, _P),
 ]
+
+# ---- gradient generator: window indexing of gradient3x3, output dims, feature -> (channel, mode) -------------------
+# (added for the value-level model coq/theories/C08_Gradient.v; the float arithmetic itself -- make_gg, the kernel
+# weights, sqrt -- is NOT translated: it is written by hand in PrimFloat and tied by the bit-exact value comparison)
+GRH = "include/nano/generator/gradient.h"
+GEH = "include/nano/generator/elemwise_gradient.h"
+
+
+def _gg_anchor(which, idx, part):
+    """anchor of the `part` (0 = row, 1 = column) index expression of the idx-th input(...) argument of make_gx / make_gy;
+    the six reads are positional: make_gg(v0, v1, v2, v3, v4, v5) computes k0*(v0-v1) + k1*(v2-v3) + k2*(v4-v5)"""
+    items = []
+    for i in range(6):
+        r = r"([^,()]*?)" if (i == idx and part == 0) else r"[^,()]*?"
+        c = r"([^,()]*?)" if (i == idx and part == 1) else r"[^,()]*?"
+        items.append(r"input\(%s,\s*%s\)" % (r, c))
+    return (r"const auto make_%s\s*=\s*\[&\]\(tensor_size_t row, tensor_size_t col\)\s*\{\s*return make_gg\(" % which
+            + r",\s*".join(items) + r"\);\s*\};")
+
+
+for _w in ("gx", "gy"):
+    for _i in range(6):
+        KERNELS.append(K("src_%s_r%d" % (_w, _i), GRH, _gg_anchor(_w, _i, 0), [], [("row", "Z")], G, _P))
+        KERNELS.append(K("src_%s_c%d" % (_w, _i), GRH, _gg_anchor(_w, _i, 1), [], [("col", "Z")], G, _P))
+
+KERNELS += [
+    # the input of gradient3x3 is (rows + 2) x (cols + 2) for an output of rows x cols (the two asserts)
+    K("src_grad_in_rows", GRH, r"assert\(input\.template size<0>\(\) == (.*?)\);", [], [("rows", "Z")], G, _P),
+    K("src_grad_in_cols", GRH, r"assert\(input\.template size<1>\(\) == (.*?)\);", [], [("cols", "Z")], G, _P),
+    # do_fit: output dims and the (channel, mode) columns of the feature mapping, the number of modes
+    K("src_grad_out_channels", GRC, r"feature_mapping\(k, 2\)\s*=\s*(.*?);", [], [], G, _P),
+    K("src_grad_out_rows", GRC, r"feature_mapping\(k, 3\)\s*-=\s*(.*?);", [], [("rows", "Z")], G, _P, wrap="rows - ({})"),
+    K("src_grad_out_cols", GRC, r"feature_mapping\(k, 4\)\s*-=\s*(.*?);", [], [("cols", "Z")], G, _P, wrap="cols - ({})"),
+    K("src_grad_map_channel", GRC, r"feature_mapping\(k, 5\)\s*=\s*(.*?);", [], [("channel", "Z"), ("type", "Z")], G, _P),
+    K("src_grad_map_mode", GRC, r"feature_mapping\(k\+\+, 6\)\s*=\s*(.*?);", [], [("channel", "Z"), ("type", "Z")], G, _P),
+    K("src_grad_modes", GRC,
+      r"for \(tensor_size_t channel = 0, channels = mapping\(i, 2\); channel < channels; \+\+channel\)\s*\{\s*"
+      r"for \(tensor_size_t type = 0; type < (.*?); \+\+type\)", [], [], G, _P),
+    K("src_grad_applies_count", GRC, r"tensor_size_t count = 0;.*?if \((.*?)\)\s*\{",
+      [(r"mapping\(i, 3\)", "rows"), (r"mapping\(i, 4\)", "cols")], [("rows", "Z"), ("cols", "Z")], G, _P),
+    # process(): column size of one generated feature
+    K("src_grad_colsize", GEH, r"class NANO_PUBLIC elemwise_gradient_t.*?const auto colsize\s*=\s*(.*?);", [],
+      [("rows", "Z"), ("cols", "Z")], G, _P),
+]
